@@ -546,10 +546,5 @@ U_KCL = Unit(P + '/lemma-KCL', [], t_kcl, SCHEMA, kind='lemma')
 UNITS = [U_ADD, U_ADD_CONN, U_ITER, U_PITER, U_GPI, U_GPII, U_CUR, U_KCL]
 
 
-def _late_units():
-    # the end_segs -> junction-pulse link (INV_CONN) is compute_connections' contract
-    from . import C12
-    return [C12.U_PULSES, C12.U_IDX]
-
-
-UNITS = UNITS + _late_units()
+# units of other modules that also run under this property (resolved by the runner after import)
+EXTRA_UNITS = [('contracts.C12', 'U_PULSES'), ('contracts.C12', 'U_IDX')]
